@@ -73,8 +73,8 @@ TRUSTED_BASE = [
     "independent predicate/width enumerator harness/oracle",
     "extraction: ExtrOcamlBasic only (Extract Inductive bool, option, unit, list, prod, sumbool; Extraction "
     "Blacklist String List); OCaml driver coq/extract/driver.ml (I/O, number conversion)",
-    "correspondence harness (Python generators, Rust hook serialisers under cfg(lexgen_verif), canonicalisation "
-    "under NFA-set labels)",
+    "correspondence harness (Python generators, Rust hook serialisers under cfg(lexgen_verif), comparison of "
+    "automata up to isomorphism); translator harness/gencode.py (generated token stream -> GenCode.v syntax trees)",
     "modelled, not verified: rustc and the semantics of generated Rust, std (Peekable, Chars, len_utf8, "
     "slice::binary_search_by, FxHashMap iteration order), syn/proc_macro2/quote, unicode-width, unicode-xid, "
     "#[derive(Clone)]",
@@ -89,7 +89,7 @@ ASSUMPTIONS = [
 def coqchk(ctx):
     t0 = time.time()
     # the whole development (every property's cone is inside it): independent re-check of all .vo files
-    mods = ["EndToEndModel", "SubsetTermination", "ScopingFacts", "LexSpecProofs", "LexSpecFacts", "RuntimeLemmas", "DefParserProofs", "CharGenProofs",
+    mods = ["EndToEndModel", "SubsetTermination", "ScopingFacts", "GenCodeChecks", "LexSpecProofs", "LexSpecFacts", "RuntimeLemmas", "DefParserProofs", "CharGenProofs",
             "DriverProofs", "CharClassProofs", "ClassAlgProofs", "Instance"]
     r = run(["coqchk", "-silent", "-o", "-Q", "theories", "LexVerif", "-Q", "gen", "LexVerif.Gen"]
             + ["LexVerif.%s" % m for m in mods], cwd=COQ, timeout=3000)
@@ -130,19 +130,19 @@ STAGES = {
 
 # which certificate fields gate which property (ClosedChecker / NfaSem checkers, proved sound)
 CERT_PROPS = {
-    "C01": {"sound", "closed", "shape", "targets", "nranges", "dranges"},
+    "C01": {"charsok", "ctxok", "sound", "closed", "shape", "targets", "nranges", "dranges"},
     "C02": {"closed", "shape", "targets", "nranges", "dranges"},
-    "C03": {"shape"},
-    "C04": {"closed", "shape", "targets", "nranges", "dranges"},
-    "C05": {"sound", "closed", "shape"},
-    "C06": {"sound", "closed", "shape"},
-    "C07": {"sound", "closed", "shape"},
-    "C08": {"sound", "closed", "shape"},
-    "C09": {"sound", "closed", "shape"},
-    "C10": {"sound", "closed", "shape"},
-    "C14": {"sound", "closed", "shape"},
-    "C15": {"sound", "closed", "shape"},
-    "C12": {"sound", "closed", "shape", "targets", "nranges", "dranges"},
+    "C03": {"charsok", "ctxok", "shape"},
+    "C04": {"charsok", "ctxok", "closed", "shape", "targets", "nranges", "dranges"},
+    "C05": {"charsok", "ctxok", "sound", "closed", "shape"},
+    "C06": {"charsok", "ctxok", "sound", "closed", "shape"},
+    "C07": {"charsok", "ctxok", "sound", "closed", "shape"},
+    "C08": {"charsok", "ctxok", "sound", "closed", "shape"},
+    "C09": {"charsok", "ctxok", "sound", "closed", "shape"},
+    "C10": {"charsok", "ctxok", "sound", "closed", "shape"},
+    "C14": {"charsok", "ctxok", "sound", "closed", "shape"},
+    "C15": {"charsok", "ctxok", "sound", "closed", "shape"},
+    "C12": {"charsok", "ctxok", "sound", "closed", "shape", "targets", "nranges", "dranges"},
 }
 
 
